@@ -20,7 +20,8 @@ ASSUMPTIONS = ["reprlib / the user's a_repr is a function of the value (A-repr)"
                "asttokens source-text recovery is exercised (line keys are compared after parsing), not modelled"]
 WORKERS = None
 NEIGHBOURS = [{"from": "C13", "limit": 400, "why": "messages of async callables list the same values"},
-              {"from": "C09", "limit": 400, "why": "values available to messages and error factories"}]
+              {"from": "C09", "limit": 400, "why": "values available to messages and error factories"},
+              {"from": "C07", "limit": 500, "why": "the values are collected without disturbing the violation itself"}]
 
 
 def cases(tier, rng):
@@ -96,6 +97,7 @@ def run_impl(case):
 
 
 def spec(case, mos, io):
+    exprprop.mark_fragment(case, mos)
     fails = exprprop.check_values(case, io, mos)
     for sub in io.get("rebinds", []):
         sub_case = dict(case, _closure={"cl": sub["cl"]})
